@@ -5,7 +5,7 @@
 
 use super::common::*;
 use crate::engine::*;
-use crate::instr::{calls_to_string, Call, Rec, RecNoReplace};
+use crate::instr::{calls_to_string, Call, Rec, RecNoReplace, SharedRec, SharedRecNoReplace};
 use crate::oracles::*;
 use crate::spaces::*;
 use serde_json::{json, Value};
@@ -382,6 +382,173 @@ pub fn check_input(alg: Algorithm, old: &[u8], new: &[u8]) -> Result<Out, String
     })
 }
 
+// ---- one hook stack object used for several diffs in a row --------------------------------
+
+pub const REUSE_STACKS: [&str; 7] = [
+    "bare hook",
+    "Replace<hook>",
+    "Replace<hook without replace()>",
+    "NoFinishHook<hook>",
+    "&mut hook",
+    "Replace<NoFinishHook<hook>>",
+    "Replace<&mut hook>",
+];
+
+/// Runs the diffs of `hist` (all must succeed) and then old->new with the hook failing at call
+/// `k`, all through the SAME stack object `h`.  Returns what the hook saw during the last diff.
+fn reuse_on<H: DiffHook<Error = usize>>(
+    h: &mut H,
+    st: &SharedRec,
+    alg: Algorithm,
+    hist: &[(&[u8], &[u8])],
+    old: &[u8],
+    new: &[u8],
+    k: Option<usize>,
+) -> Result<(Vec<Call>, Result<(), usize>), String> {
+    subject(|| {
+        for (i, (a, b)) in hist.iter().enumerate() {
+            st.reset(None);
+            if let Err(e) = raw_into(alg, 0, h, *a, 0..a.len(), *b, 0..b.len(), None) {
+                panic!("earlier diff #{} through the same stack returned Err({}) although no hook call failed", i, e);
+            }
+        }
+        st.reset(k);
+        let r = raw_into(alg, 0, h, old, 0..old.len(), new, 0..new.len(), None);
+        (st.calls(), r)
+    })
+}
+
+fn reuse_run(
+    alg: Algorithm,
+    stack: usize,
+    hist: &[(&[u8], &[u8])],
+    old: &[u8],
+    new: &[u8],
+    k: Option<usize>,
+) -> Result<(Vec<Call>, Result<(), usize>), String> {
+    let st = SharedRec::new();
+    match stack {
+        0 => reuse_on(&mut st.clone(), &st, alg, hist, old, new, k),
+        1 => reuse_on(&mut Replace::new(st.clone()), &st, alg, hist, old, new, k),
+        2 => reuse_on(&mut Replace::new(SharedRecNoReplace(st.clone())), &st, alg, hist, old, new, k),
+        3 => reuse_on(&mut NoFinishHook::new(st.clone()), &st, alg, hist, old, new, k),
+        4 => {
+            let mut inner = st.clone();
+            let mut h: &mut SharedRec = &mut inner;
+            reuse_on(&mut h, &st, alg, hist, old, new, k)
+        }
+        5 => reuse_on(&mut Replace::new(NoFinishHook::new(st.clone())), &st, alg, hist, old, new, k),
+        _ => {
+            let mut inner = st.clone();
+            reuse_on(&mut Replace::new(&mut inner), &st, alg, hist, old, new, k)
+        }
+    }
+    .map_err(|p| format!("{} used for {} earlier diff(s): panic: {}", REUSE_STACKS[stack], hist.len(), p))
+}
+
+/// earlier diffs a reused stack has been through: they end in an equal run, a deletion, an
+/// insertion, a replacement, nothing at all, and a replacement followed by an equal run
+pub const HISTORY_INPUTS: [(&[u8], &[u8]); 6] = [
+    (&[0], &[0]),
+    (&[0, 1], &[0]),
+    (&[0], &[0, 1]),
+    (&[0, 1], &[0, 2]),
+    (&[], &[]),
+    (&[1, 0], &[2, 0]),
+];
+
+pub fn histories(depth: usize) -> Vec<Vec<(&'static [u8], &'static [u8])>> {
+    let mut out = vec![];
+    for a in HISTORY_INPUTS.iter() {
+        out.push(vec![*a]);
+    }
+    if depth >= 2 {
+        for a in HISTORY_INPUTS.iter() {
+            for b in HISTORY_INPUTS.iter() {
+                out.push(vec![*a, *b]);
+            }
+        }
+    }
+    out
+}
+
+/// The clauses of the statement on a diff that is NOT the first one its hook stack sees:
+/// finish once and last on success; a failing call k is returned and nothing follows it.
+pub fn check_reuse(alg: Algorithm, depth: usize, old: &[u8], new: &[u8]) -> Result<Out, String> {
+    let mut runs = 0;
+    let mut transitions = 0;
+    let mut fp = Fp::new();
+    let mut any = false;
+    for hist in histories(depth) {
+        let hd = || {
+            hist.iter()
+                .map(|(a, b)| format!("{:?}->{:?}", a, b))
+                .collect::<Vec<_>>()
+                .join(", ")
+        };
+        let mut success: Vec<Vec<Call>> = vec![];
+        for stack in 0..REUSE_STACKS.len() {
+            let (calls, r) = reuse_run(alg, stack, &hist, old, new, None)?;
+            runs += 1;
+            transitions += calls.len() as u64;
+            if let Err(e) = r {
+                return Err(format!(
+                    "{} after earlier diffs [{}] through the same stack: diff returned Err({}) although no hook call failed",
+                    REUSE_STACKS[stack], hd(), e
+                ));
+            }
+            let finishes = calls.iter().filter(|c| **c == Call::Fin).count();
+            let want = if stack == 3 || stack == 5 { 0 } else { 1 };
+            if finishes != want || (want == 1 && calls.last() != Some(&Call::Fin)) {
+                return Err(format!(
+                    "{} after earlier diffs [{}] through the same stack: finish reached the hook {} times, expected {}{} [calls: {}]",
+                    REUSE_STACKS[stack],
+                    hd(),
+                    finishes,
+                    want,
+                    if want == 1 { " and last" } else { "" },
+                    calls_to_string(&calls)
+                ));
+            }
+            fp.add(calls_fp(&calls));
+            success.push(calls);
+        }
+        if success[2] != expand_replace(&success[1]) {
+            return Err(format!(
+                "after earlier diffs [{}] through the same stack: hook without replace() sees [{}]; with replace() it sees [{}]",
+                hd(),
+                calls_to_string(&success[2]),
+                calls_to_string(&success[1])
+            ));
+        }
+        for stack in 0..REUSE_STACKS.len() {
+            for k in 0..success[stack].len() {
+                any = true;
+                let (calls, r) = reuse_run(alg, stack, &hist, old, new, Some(k))?;
+                runs += 1;
+                transitions += calls.len() as u64;
+                if r != Err(k) {
+                    return Err(format!(
+                        "{} after earlier diffs [{}] through the same stack: hook failed at call {} with Err({}) but the diff returned {:?}",
+                        REUSE_STACKS[stack], hd(), k, k, r
+                    ));
+                }
+                if calls.len() != k + 1 {
+                    return Err(format!(
+                        "{} after earlier diffs [{}] through the same stack: hook failed at call {} but {} further call(s) were made [calls: {}]",
+                        REUSE_STACKS[stack],
+                        hd(),
+                        k,
+                        calls.len() - (k + 1),
+                        calls_to_string(&calls)
+                    ));
+                }
+            }
+        }
+    }
+    Ok(Out { nontrivial: any, transitions, fp: fp.0, runs })
+}
+
 /// Direct drive of the forwarding wrappers with every call kind (the algorithms alone never
 /// send `replace` through NoFinishHook / &mut with all argument shapes).
 fn wrapper_protocol() -> Result<u64, String> {
@@ -553,6 +720,49 @@ pub fn run(cfg: &RunCfg) -> CheckReport {
     if rep.has_violation() {
         return rep;
     }
+    // operation sequences: the same stack object is handed to several diffs in a row
+    let depth = cfg.tier.pick(1usize, 2usize);
+    let space3 = PairSpace::new(match cfg.tier {
+        Tier::Quick => vec![Scope::P { k: 3, n: 4 }, Scope::P { k: 2, n: 6 }, Scope::R { l: 7 }],
+        Tier::Thorough => vec![Scope::P { k: 3, n: 5 }, Scope::P { k: 2, n: 7 }, Scope::R { l: 8 }],
+    });
+    let ex = explore(cfg, space3.nshards(), |shard, acc| {
+        space3.for_each(shard, |old, new| {
+            for &alg in ALGS.iter() {
+                match check_reuse(alg, depth, old, new) {
+                    Ok(o) => {
+                        if acc.want_sample() {
+                            let mut c = seq_case(alg, old, new);
+                            c["fault_runs"] = json!(o.runs);
+                            acc.sample(c);
+                        }
+                        acc.count("diff_runs_through_a_reused_stack", o.runs);
+                        acc.ok(o.nontrivial, o.transitions, o.fp);
+                    }
+                    Err(e) => acc.violation(|| {
+                        let mut c = seq_case(alg, old, new);
+                        c["reuse_depth"] = json!(depth);
+                        (c, e)
+                    }),
+                }
+                if acc.stop() {
+                    return false;
+                }
+            }
+            true
+        });
+    });
+    rep.part(
+        "reused-stack",
+        json!({"scopes": space3.describe(), "stacks": REUSE_STACKS, "history_depth": depth,
+               "earlier_diffs": HISTORY_INPUTS.iter().map(|(a, b)| format!("{:?}->{:?}", a, b)).collect::<Vec<_>>(),
+               "faults": "every history of up to history_depth successful earlier diffs x every failing call index of the last diff",
+               "note": "Compact is left out: it documents no reuse and keeps its op list after finish"}),
+        ex,
+    );
+    if rep.has_violation() {
+        return rep;
+    }
     // enumerated large inputs: success protocol and six failing call positions each
     super::large::run_part(cfg, &mut rep, &ALGS, &|a| if a == Algorithm::Lcs { 300 } else { usize::MAX }, check_large);
     if rep.has_violation() {
@@ -585,6 +795,9 @@ pub fn replay(case: &Value) -> Result<String, String> {
     let alg = parse_alg(case)?;
     let old = parse_seq(case, "old")?;
     let new = parse_seq(case, "new")?;
+    if let Some(d) = case.get("reuse_depth").and_then(|x| x.as_u64()) {
+        return check_reuse(alg, d as usize, &old, &new).map(|o| format!("holds; {} runs, fingerprint {:x}", o.runs, o.fp));
+    }
     if case.get("two_faults").is_some() {
         return check_input_two_faults(alg, &old, &new).map(|o| format!("holds; {} runs, fingerprint {:x}", o.runs, o.fp));
     }
